@@ -5,28 +5,28 @@
 // not as the package's constants, so that a changed constant is noticed.
 package corebgp
 
-//@ func PathAttrFlags.Optional returns (r)
+//@ func PathAttrFlags.Optional (p) returns (r)
 //@   ensures [bit7] r == bit(p, 128)
-//@ func PathAttrFlags.Transitive returns (r)
+//@ func PathAttrFlags.Transitive (p) returns (r)
 //@   ensures [bit6] r == bit(p, 64)
-//@ func PathAttrFlags.Partial returns (r)
+//@ func PathAttrFlags.Partial (p) returns (r)
 //@   ensures [bit5] r == bit(p, 32)
-//@ func PathAttrFlags.ExtendedLen returns (r)
+//@ func PathAttrFlags.ExtendedLen (p) returns (r)
 //@   ensures [bit4] r == bit(p, 16)
 
-//@ func notifDataForAttrBasedErr returns (r)
+//@ func notifDataForAttrBasedErr (code, attrData) returns (r)
 //@   ensures [tlv]   attrTLV(r, code, attrData)
 //@   ensures [fresh] fresh(r.arr)
 
-//@ func attrLenBadForCodeErr returns (n)
+//@ func attrLenBadForCodeErr (code, attrData) returns (n)
 //@   ensures [notif] n != nil && fresh(n) && n.Code == 3 && n.Subcode == 5 && attrTLV(n.Data, code, attrData)
 
-//@ func PathAttrFlags.Validate returns (err)
+//@ func PathAttrFlags.Validate (p, forCode, attrData, wantOptional, wantTransitive) returns (err)
 //@   ensures [nil_iff]  (err == nil) == (bit(p, 128) == wantOptional && bit(p, 64) == wantTransitive)
 //@   ensures [class]    err != nil ==> isTAW(err, forCode, 3, 4)
 //@   ensures [data_tlv] err != nil ==> attrTLV(tawNotif(err).Data, forCode, attrData)
 
-//@ func OriginPathAttr.Decode returns (err)
+//@ func OriginPathAttr.Decode (o, flags, b) returns (err)
 //@   ensures [accept_iff]  (err == nil) == (wellKnownFlags(flags) && len(b) == 1 && b[0] <= 2)
 //@   ensures [value_exact] err == nil ==> *o == b[0]
 //@   ensures [flags_class] !wellKnownFlags(flags) ==> isTAW(err, 1, 3, 4) && attrTLV(tawNotif(err).Data, 1, b)
@@ -35,21 +35,21 @@ package corebgp
 //@   ensures [unchanged_on_error] err != nil ==> *o == old(*o)
 //@   modifies *o
 
-//@ func NextHopPathAttr.Decode returns (err)
+//@ func NextHopPathAttr.Decode (n, flags, b) returns (err)
 //@   ensures [accept_iff]  (err == nil) == (wellKnownFlags(flags) && len(b) == 4)
 //@   ensures [value_exact] err == nil ==> *n == addr4(b[0], b[1], b[2], b[3])
 //@   ensures [flags_class] !wellKnownFlags(flags) ==> isTAW(err, 3, 3, 4) && attrTLV(tawNotif(err).Data, 3, b)
 //@   ensures [len_class]   wellKnownFlags(flags) && len(b) != 4 ==> isTAW(err, 3, 3, 5) && attrTLV(tawNotif(err).Data, 3, b)
 //@   modifies *n
 
-//@ func MEDPathAttr.Decode returns (err)
+//@ func MEDPathAttr.Decode (m, flags, b) returns (err)
 //@   ensures [accept_iff]  (err == nil) == (optNonTransFlags(flags) && len(b) == 4)
 //@   ensures [value_exact] err == nil ==> *m == be32(b, 0)
 //@   ensures [flags_class] !optNonTransFlags(flags) ==> isTAW(err, 4, 3, 4) && attrTLV(tawNotif(err).Data, 4, b)
 //@   ensures [len_class]   optNonTransFlags(flags) && len(b) != 4 ==> isTAW(err, 4, 3, 5) && attrTLV(tawNotif(err).Data, 4, b)
 //@   modifies *m
 
-//@ func LocalPrefPathAttr.Decode returns (err)
+//@ func LocalPrefPathAttr.Decode (l, flags, b) returns (err)
 //@   ensures [accept_iff]  (err == nil) == (wellKnownFlags(flags) && len(b) == 4)
 //@   ensures [value_exact] err == nil ==> *l == be32(b, 0)
 //@   ensures [flags_class] !wellKnownFlags(flags) ==> isTAW(err, 5, 3, 4) && attrTLV(tawNotif(err).Data, 5, b)
@@ -57,7 +57,7 @@ package corebgp
 //@   modifies *l
 
 // ATOMIC_AGGREGATE is well-known discretionary (RFC 4271 5.1.6): Optional = 0.
-//@ func AtomicAggregatePathAttr.Decode returns (err)
+//@ func AtomicAggregatePathAttr.Decode (a, flags, b) returns (err)
 //@   ensures [accept_iff]  (err == nil) == (wellKnownFlags(flags) && len(b) == 0)
 //@   ensures [value_exact] err == nil ==> *a == true
 //@   ensures [flags_class] !wellKnownFlags(flags) ==> isTAW(err, 6, 3, 4) && attrTLV(tawNotif(err).Data, 6, b)
@@ -70,21 +70,22 @@ package corebgp
 //@   ensures [asis_flags_class] !optTransFlags(flags) ==> isTAW(err, 6, 3, 4) && attrTLV(tawNotif(err).Data, 6, b)
 //@   modifies *a
 
-//@ func AggregatorPathAttr.Decode returns (err)
+//@ func AggregatorPathAttr.Decode (a, flags, b) returns (err)
 //@   ensures [accept_iff]  (err == nil) == (optTransFlags(flags) && len(b) == 8)
 //@   ensures [value_exact] err == nil ==> a.AS == be32(b, 0) && a.IP == addr4(b[4], b[5], b[6], b[7])
 //@   ensures [flags_class] !optTransFlags(flags) ==> isTAW(err, 7, 3, 4) && attrTLV(tawNotif(err).Data, 7, b)
 //@   ensures [len_class]   optTransFlags(flags) && len(b) != 8 ==> isAD(err, 7, 3, 5) && attrTLV(adNotif(err).Data, 7, b)
 //@   modifies *a
 
-//@ func OriginatorIDPathAttr.Decode returns (err)
+//@ func OriginatorIDPathAttr.Decode (o, flags, b) returns (err)
 //@   ensures [accept_iff]  (err == nil) == (optNonTransFlags(flags) && len(b) == 4)
 //@   ensures [value_exact] err == nil ==> *o == addr4(b[0], b[1], b[2], b[3])
 //@   ensures [flags_class] !optNonTransFlags(flags) ==> isTAW(err, 9, 3, 4) && attrTLV(tawNotif(err).Data, 9, b)
 //@   ensures [len_class]   optNonTransFlags(flags) && len(b) != 4 ==> isTAW(err, 9, 3, 5) && attrTLV(tawNotif(err).Data, 9, b)
 //@   modifies *o
 
-//@ func decodeUint32Set returns (r, err)
+//@ func decodeUint32Set (b) returns (r, err)
+//@   local ret #0 []uint32
 //@   ghost b0 = b
 //@   ensures [nil_iff] (err == nil) == (len(b) > 0 && len(b) % 4 == 0)
 //@   ensures [count]   err == nil ==> len(r) == len(b) / 4
@@ -96,7 +97,7 @@ package corebgp
 //@   loop#0 invariant [values] forall k :: 0 <= k && k < len(ret) ==> ret[k] == be32(b0, 4*k)
 //@   loop#0 decreases len(b)
 
-//@ func CommunitiesPathAttr.Decode returns (err)
+//@ func CommunitiesPathAttr.Decode (c, flags, b) returns (err)
 //@   ensures [accept_iff]  (err == nil) == (optTransFlags(flags) && len(b) >= 4 && len(b) % 4 == 0)
 //@   ensures [count]       err == nil ==> len(*c) == len(b) / 4
 //@   ensures [value_exact] err == nil ==> (forall k :: 0 <= k && k < len(b) / 4 ==> (*c)[k] == be32(b, 4*k))
@@ -104,7 +105,8 @@ package corebgp
 //@   ensures [len_class]   optTransFlags(flags) && !(len(b) >= 4 && len(b) % 4 == 0) ==> isTAW(err, 8, 3, 5) && attrTLV(tawNotif(err).Data, 8, b)
 //@   modifies *c
 
-//@ func ClusterListPathAttr.Decode returns (err)
+//@ func ClusterListPathAttr.Decode (c, flags, b) returns (err)
+//@   local addrs #0 []netip.Addr
 //@   ghost b0 = b
 //@   ensures [accept_iff]  (err == nil) == (optNonTransFlags(flags) && len(b) >= 4 && len(b) % 4 == 0)
 //@   ensures [count]       err == nil ==> len(*c) == len(b) / 4
@@ -117,7 +119,8 @@ package corebgp
 //@   loop#0 invariant [values] forall k :: 0 <= k && k < len(addrs) ==> addrs[k] == addr4(b0[4*k], b0[4*k+1], b0[4*k+2], b0[4*k+3])
 //@   loop#0 decreases len(b)
 
-//@ func decodeLargeCommunitySet returns (r, err)
+//@ func decodeLargeCommunitySet (b) returns (r, err)
+//@   local ret #0 []LargeCommunity
 //@   ghost b0 = b
 //@   ensures [nil_iff] (err == nil) == (len(b) % 12 == 0)
 //@   ensures [count]   err == nil ==> len(r) == len(b) / 12
@@ -128,7 +131,7 @@ package corebgp
 //@   loop#0 invariant [values] forall k :: 0 <= k && k < len(ret) ==> ret[k].GlobalAdmin == be32(b0, 12*k) && ret[k].LocalData1 == be32(b0, 12*k+4) && ret[k].LocalData2 == be32(b0, 12*k+8)
 //@   loop#0 decreases len(b)
 
-//@ func LargeCommunitiesPathAttr.Decode returns (err)
+//@ func LargeCommunitiesPathAttr.Decode (l, flags, b) returns (err)
 //@   ensures [accept_iff]  (err == nil) == (optTransFlags(flags) && len(b) >= 12 && len(b) % 12 == 0)
 //@   ensures [count]       err == nil ==> len(*l) == len(b) / 12
 //@   ensures [value_exact] err == nil ==> (forall k :: 0 <= k && k < len(b) / 12 ==> (*l)[k].GlobalAdmin == be32(b, 12*k) && (*l)[k].LocalData1 == be32(b, 12*k+4) && (*l)[k].LocalData2 == be32(b, 12*k+8))
@@ -138,13 +141,14 @@ package corebgp
 
 // ---- prefixes, NLRI, MP attributes (C19) ----
 
-//@ func decodePrefix returns (p, rest, err)
+//@ func decodePrefix (b, ipv6) returns (p, rest, err)
 //@   ensures [accept_iff] (err == nil) == (len(b) >= 1 && pfxOK(b, 0, ipv6))
 //@   ensures [rest]       err == nil ==> sameSlice(rest, b[pfxNext(b, 0):])
 //@   ensures [value]      err == nil ==> p == pfxAt(b, 0, ipv6)
 //@   ensures [nil_on_error] err != nil ==> rest == nil && p == 0
 
-//@ func decodePrefixes returns (r, err)
+//@ func decodePrefixes (b, ipv6) returns (r, err)
+//@   local prefixes #0 []netip.Prefix
 //@   ghost b0 = b
 //@   ghostvar offs intarray = emptyArr()
 //@   ghostvar fn int = 0
@@ -165,7 +169,8 @@ package corebgp
 //@   loop#0 decreases len(b)
 
 // add-path entries: <4-octet path id, length octet, address octets>
-//@ func decodeAddPathPrefixes returns (r, err)
+//@ func decodeAddPathPrefixes (b, ipv6) returns (r, err)
+//@   local prefixes #0 []AddPathPrefix
 //@   ghost b0 = b
 //@   ghostvar offs intarray = emptyArr()
 //@   ghostvar fn int = 0
@@ -189,7 +194,8 @@ package corebgp
 
 // The four NLRI / withdrawn-routes wrappers: the user closure is called exactly
 // once with the decoded list when the field parses, not at all otherwise.
-//@ func NewNLRIDecodeFn$1 returns (err)
+//@ func NewNLRIDecodeFn$1 (t, b) returns (err)
+//@   local fn #0 func(t T, p []netip.Prefix) error
 //@   requires fn != nil
 //@   ghostvar called int = 0
 //@   ghostvar w intarray = emptyArr()
@@ -204,7 +210,8 @@ package corebgp
 //@   ensures [fault_notification] called == 0 ==> isNotif(err, 3, 10) && len(asType(err, *Notification).Data) == 0
 //@   ensures [callback_result]    called == 1 ==> err.tag == cbTag && err.val == cbVal
 
-//@ func NewNLRIAddPathDecodeFn$1 returns (err)
+//@ func NewNLRIAddPathDecodeFn$1 (t, b) returns (err)
+//@   local fn #0 func(t T, a []AddPathPrefix) error
 //@   requires fn != nil
 //@   ghostvar called int = 0
 //@   ghostvar w intarray = emptyArr()
@@ -219,7 +226,8 @@ package corebgp
 //@   ensures [fault_notification] called == 0 ==> isNotif(err, 3, 10) && len(asType(err, *Notification).Data) == 0
 //@   ensures [callback_result]    called == 1 ==> err.tag == cbTag && err.val == cbVal
 
-//@ func NewWithdrawnRoutesDecodeFn$1 returns (err)
+//@ func NewWithdrawnRoutesDecodeFn$1 (t, b) returns (err)
+//@   local fn #0 func(t T, p []netip.Prefix) error
 //@   requires fn != nil
 //@   ghostvar called int = 0
 //@   ghostvar w intarray = emptyArr()
@@ -234,7 +242,8 @@ package corebgp
 //@   ensures [fault_notification] called == 0 ==> isNotif(err, 3, 0) && len(asType(err, *Notification).Data) == 0
 //@   ensures [callback_result]    called == 1 ==> err.tag == cbTag && err.val == cbVal
 
-//@ func NewWithdrawnAddPathRoutesDecodeFn$1 returns (err)
+//@ func NewWithdrawnAddPathRoutesDecodeFn$1 (t, b) returns (err)
+//@   local fn #0 func(t T, a []AddPathPrefix) error
 //@   requires fn != nil
 //@   ghostvar called int = 0
 //@   ghostvar w intarray = emptyArr()
@@ -249,21 +258,22 @@ package corebgp
 //@   ensures [fault_notification] called == 0 ==> isNotif(err, 3, 0) && len(asType(err, *Notification).Data) == 0
 //@   ensures [callback_result]    called == 1 ==> err.tag == cbTag && err.val == cbVal
 
-//@ func DecodeMPIPv6Prefixes returns (r, err)
+//@ func DecodeMPIPv6Prefixes (b) returns (r, err)
 //@   ghostvar w intarray = emptyArr()
 //@   at call decodePrefixes#0 after set w = callee_offs
 //@   ensures [chain]   err == nil ==> pfxChain(b, w, len(r), len(b))
 //@   ensures [values]  err == nil ==> (forall k :: 0 <= k && k < len(r) ==> pfxOK(b, w[k], true) && r[k] == pfxAt(b, w[k], true))
 //@   ensures [fault_notification] err != nil ==> r == nil && isNotif(err, 3, 0)
 
-//@ func DecodeMPIPv6AddPathPrefixes returns (r, err)
+//@ func DecodeMPIPv6AddPathPrefixes (b) returns (r, err)
 //@   ghostvar w intarray = emptyArr()
 //@   at call decodeAddPathPrefixes#0 after set w = callee_offs
 //@   ensures [chain]   err == nil ==> apChain(b, w, len(r), len(b))
 //@   ensures [values]  err == nil ==> (forall k :: 0 <= k && k < len(r) ==> apOK(b, w[k], true) && r[k].ID == be32(b, w[k]) && r[k].Prefix == pfxAt(b, w[k] + 4, true))
 //@   ensures [fault_notification] err != nil ==> r == nil && isNotif(err, 3, 0)
 
-//@ func DecodeMPReachIPv6NextHops returns (r, err)
+//@ func DecodeMPReachIPv6NextHops (nh) returns (r, err)
+//@   local nhs #0 []netip.Addr
 //@   ghost nh0 = nh
 //@   ensures [accept_iff] (err == nil) == (len(nh) == 16 || len(nh) == 32)
 //@   ensures [count]      err == nil ==> len(r) == len(nh) / 16
@@ -274,11 +284,12 @@ package corebgp
 //@   loop#0 invariant [values] forall k :: 0 <= k && k < len(nhs) ==> nhs[k] == addr16(nh0[16*k], nh0[16*k+1], nh0[16*k+2], nh0[16*k+3], nh0[16*k+4], nh0[16*k+5], nh0[16*k+6], nh0[16*k+7], nh0[16*k+8], nh0[16*k+9], nh0[16*k+10], nh0[16*k+11], nh0[16*k+12], nh0[16*k+13], nh0[16*k+14], nh0[16*k+15])
 //@   loop#0 decreases len(nh)
 
-//@ func mpLenErr returns (n)
+//@ func mpLenErr () returns (n)
 //@   ensures [notif] n != nil && fresh(n) && n.Code == 3 && n.Subcode == 5 && len(n.Data) == 0
 
 // MP_REACH_NLRI: AFI(2) SAFI(1) NHLEN(1) NEXTHOP(NHLEN) RESERVED(1) NLRI(...)
-//@ func NewMPReachNLRIDecodeFn$1 returns (err)
+//@ func NewMPReachNLRIDecodeFn$1 (t, flags, b) returns (err)
+//@   local fn #0 func(t T, afi uint16, safi uint8, nh []uint8, nlri []uint8) error
 //@   requires fn != nil
 //@   ghost b0 = b
 //@   ghostvar called int = 0
@@ -294,7 +305,8 @@ package corebgp
 //@   ensures [nil_iff] (err == nil) == (optNonTransFlags(flags) && called == 1 && cbTag == 0)
 //@   ensures [callback_error_kept] called == 1 && cbTag != 0 ==> errContainsTV(err, cbTag, cbVal)
 
-//@ func NewMPUnreachNLRIDecodeFn$1 returns (err)
+//@ func NewMPUnreachNLRIDecodeFn$1 (t, flags, b) returns (err)
+//@   local fn #0 func(t T, afi uint16, safi uint8, withdrawn []uint8) error
 //@   requires fn != nil
 //@   ghostvar called int = 0
 //@   ghostvar cbTag int = 0
@@ -314,18 +326,20 @@ package corebgp
 // attrsBitmap against its set view. These two 8-instruction functions use
 // variable shifts; their contracts are discharged by the bit-vector side proof
 // (cbv bvproof), not by the integer engine.
-//@ func attrsBitmap.isSet returns (r)
+//@ func attrsBitmap.isSet (a, b) returns (r)
 //@   trusted
 //@   ensures r == bmHas(*a, b)
-//@ func attrsBitmap.set
+//@ func attrsBitmap.set (a, b)
 //@   trusted
 //@   modifies *a
 //@   ensures forall c :: bmHas(*a, c) == (bmHas(old(*a), c) || c == b)
 
-//@ func totalAttrLenErr returns (err)
+//@ func totalAttrLenErr (code) returns (err)
 //@   ensures [class] isTAW(err, code, 3, 0) && len(tawNotif(err).Data) == 0 && fresh(err.val)
 
-//@ func UpdateDecoder.decodePathAttrs returns (err)
+//@ func UpdateDecoder.decodePathAttrs (s, t, b, hasNLRI) returns (err)
+//@   local attrsSeen #0 attrsBitmap
+//@   local me #0 error
 //@   requires s.paFn != nil
 //@   ghost b0 = b
 //@   ghostvar ipos int = 0
@@ -369,7 +383,7 @@ package corebgp
 //@   ensures [overrun_class] overrun ==> hasType(err, *TreatAsWithdrawUpdateErr)
 //@   ensures [missing_class] !dupMP && !cbNotif && (hasNLRI || bmHas(seen, 14)) && (!bmHas(seen, 1) || !bmHas(seen, 2)) ==> errContainsTV(err, tagOf(*TreatAsWithdrawUpdateErr), mVal) && asPtr(mVal, *TreatAsWithdrawUpdateErr).Code == (bmHas(seen, 1) ? 2 : 1) && asPtr(mVal, *TreatAsWithdrawUpdateErr).Notification != nil && asPtr(mVal, *TreatAsWithdrawUpdateErr).Notification.Code == 3 && asPtr(mVal, *TreatAsWithdrawUpdateErr).Notification.Subcode == 3 && len(asPtr(mVal, *TreatAsWithdrawUpdateErr).Notification.Data) == 1 && asPtr(mVal, *TreatAsWithdrawUpdateErr).Notification.Data[0] == (bmHas(seen, 1) ? 2 : 1)
 
-//@ func UpdateDecoder.Decode returns (err)
+//@ func UpdateDecoder.Decode (s, t, b) returns (err)
 //@   requires s.wrFn != nil && s.paFn != nil && s.nlriFn != nil
 //@   ghost b0 = b
 //@   let wrl = be16(b0, 0)
@@ -407,12 +421,12 @@ package corebgp
 //@   ensures [contains_pa]  npa == 1 && paT != 0 ==> errContainsTV(err, paT, paV)
 //@   ensures [contains_nlri] nnlri == 1 && nlT != 0 ==> errContainsTV(err, nlT, nlV)
 
-//@ func asPathMalformedErr returns (err)
+//@ func asPathMalformedErr () returns (err)
 //@   ensures [class] isTAW(err, 2, 3, 11) && len(tawNotif(err).Data) == 0
 
 // AS_PATH. The receiver is decoded into from its zero value (what the plugin
 // API documents); conservation: no AS number of any segment is lost.
-//@ func ASPathAttr.Decode returns (err)
+//@ func ASPathAttr.Decode (a, flags, b) returns (err)
 //@   requires [zero_value] a.ASSet == nil && a.ASSequence == nil
 //@   ghost b0 = b
 //@   ghostvar offs intarray = emptyArr()
@@ -439,13 +453,13 @@ package corebgp
 
 // ---- UpdateNotificationFromErr (C17) ----
 
-//@ func Notification.AsSessionReset returns (r)
+//@ func Notification.AsSessionReset (n) returns (r)
 //@   ensures [self] r == n
-//@ func TreatAsWithdrawUpdateErr.AsSessionReset returns (r)
+//@ func TreatAsWithdrawUpdateErr.AsSessionReset (t) returns (r)
 //@   ensures [non_nil] r != nil
 //@   ensures [own_notification]  t.Notification != nil ==> r == t.Notification
 //@   ensures [generic_otherwise] t.Notification == nil ==> fresh(r) && r.Code == 3 && r.Subcode == 0 && len(r.Data) == 0
-//@ func AttrDiscardUpdateErr.AsSessionReset returns (r)
+//@ func AttrDiscardUpdateErr.AsSessionReset (a) returns (r)
 //@   ensures [non_nil] r != nil
 //@   ensures [own_notification]  a.Notification != nil ==> r == a.Notification
 //@   ensures [generic_otherwise] a.Notification == nil ==> fresh(r) && r.Code == 3 && r.Subcode == 0 && len(r.Data) == 0
@@ -455,7 +469,12 @@ package corebgp
 // treat-as-withdraw / attribute-discard value is only stored in its own
 // variable, and the walk of a nil error changes nothing. Recursive calls use
 // this same contract (partial correctness).
-//@ func UpdateNotificationFromErr$1
+//@ func UpdateNotificationFromErr$1 (err)
+//@   local ad #0 *AttrDiscardUpdateErr
+//@   local n #0 *Notification
+//@   local taw #0 *TreatAsWithdrawUpdateErr
+//@   local ue #0 UpdateError
+//@   local x #1 *Notification
 //@   requires [ue_foreign] ue != nil ==> !isType(ue, *Notification) && !isType(ue, *TreatAsWithdrawUpdateErr) && !isType(ue, *AttrDiscardUpdateErr)
 //@   ensures  [ue_foreign] ue != nil ==> !isType(ue, *Notification) && !isType(ue, *TreatAsWithdrawUpdateErr) && !isType(ue, *AttrDiscardUpdateErr)
 //@   ensures  [notification_is_err] isType(err, *Notification) && old(n) == nil ==> n == asType(err, *Notification)
@@ -472,7 +491,11 @@ package corebgp
 //@   ensures [ad_found]  isType(err, *AttrDiscardUpdateErr) && asType(err, *AttrDiscardUpdateErr) != nil ==> ad != nil
 //@   ensures [nil_walk]  err == nil ==> n == old(n) && taw == old(taw) && ad == old(ad) && ue == old(ue)
 
-//@ func UpdateNotificationFromErr returns (r)
+//@ func UpdateNotificationFromErr (err) returns (r)
+//@   local ad #0 *AttrDiscardUpdateErr
+//@   local n #0 *Notification
+//@   local taw #0 *TreatAsWithdrawUpdateErr
+//@   local ue #0 UpdateError
 //@   ghostvar gn int = 0
 //@   ghostvar gtaw int = 0
 //@   ghostvar gad int = 0
